@@ -162,7 +162,12 @@ func candidates(rs *gj5s.RuleSpec) []cand {
 		}
 	case "enum":
 		names := map[int32]string{0: "UNSPECIFIED", 1: "ALPHA", 2: "BETA", 3: "GAMMA"}
-		for _, n := range []int32{0, 1, 2, 3, 99} {
+		nums := []int32{0, 1, 2, 3, 99}
+		if rs.ProtoEnum {
+			names = map[int32]string{0: "UNSPECIFIED", 1: "ALPHA", 5: "BETA", 10: "GAMMA"}
+			nums = []int32{0, 1, 2, 3, 5, 10, 99}
+		}
+		for _, n := range nums {
 			n := n
 			name, defined := names[n]
 			ok := defined
